@@ -1012,6 +1012,36 @@ func (fc *fctx) bindLoopVars(env *Env, b *ssa.BasicBlock, ord int, phiVal func(*
 			}
 		}
 	}
+	// a variable only read from the loop head on (its definition-site reference is lost when the builder lifts
+	// a composite literal): a reference below the head to a value defined above it is the value at the head
+	for _, d := range fc.fn.DomPreorder() {
+		if d != b && !b.Dominates(d) {
+			continue
+		}
+		for _, instr := range d.Instrs {
+			x, ok := instr.(*ssa.DebugRef)
+			if !ok || x.IsAddr {
+				continue
+			}
+			id, ok := x.Expr.(*ast.Ident)
+			if !ok {
+				continue
+			}
+			if _, bound := env.vars[id.Name]; bound {
+				continue
+			}
+			def, ok := x.X.(ssa.Instruction)
+			if !ok || def.Block() == nil || def.Block() == b || !def.Block().Dominates(b) {
+				continue
+			}
+			if _, isPhi := x.X.(*ssa.Phi); isPhi {
+				continue
+			}
+			if vs, ok := fc.vals[x.X]; ok && len(vs) == 1 {
+				env.vars[id.Name] = vs[0]
+			}
+		}
+	}
 	for _, instr := range b.Instrs {
 		phi, ok := instr.(*ssa.Phi)
 		if !ok {
